@@ -1226,17 +1226,18 @@ func (s *session) lagAll() {
 		// completion marker (the state itself is all there). A recovery that does not insist on the marker comes
 		// up on it — and would walk into missing trie nodes (and take the process down) at the plain lag points
 		// below, which are then skipped.
-		insists := true
-		for _, l := range sIdx {
+		insists := !s.w.noMarkerGuard
+		if insists && len(sIdx) > 0 {
+			// only the last state commit (the new top's): everything below it is complete
+			l := sIdx[len(sIdx)-1]
 			u := s.J[l]
-			if n := len(u.Ops); n < 2 || !strings.HasPrefix(s.sc.opText('S', u.Ops[n-1]), "+mark:") {
-				continue
-			}
-			if !s.lagAt(sp.m+1, l, true) {
-				insists = false
+			if n := len(u.Ops); n >= 2 && strings.HasPrefix(s.sc.opText('S', u.Ops[n-1]), "+mark:") {
+				insists = s.lagAt(sp.m+1, l, true)
 			}
 		}
 		if !insists {
+			// for the rest of the run: the plain lag points would take the process down
+			s.w.noMarkerGuard = true
 			s.run.Count("lag-points-skipped(recovery does not insist on the state marker)")
 			continue
 		}
